@@ -18,6 +18,7 @@
 (*                                                                         *)
 (* So the posed configuration has two independent parts:                   *)
 (*   kcube[t][s][kd]  the value of the metric of KIND kd for pair (t, s)   *)
+(*                    (numerator; scale[kd] is the kind's denominator)     *)
 (*   order            the sequence in which the reward configuration lists *)
 (*                    the metric kinds (any permutation: the constructors  *)
 (*                    only require one metric of each kind)                *)
@@ -42,6 +43,10 @@
 (*        position among the non-"beh" kinds (an inner cost-constrained    *)
 (*        reward built from the 3-metric sub-list, fed the 4-column matrix)*)
 (*   "ColumnsInDocumentedOrder"    columns assumed to be stab,info,sens,beh*)
+(*   "DivisorFlooredAtOne"  normalisation divides by max(maximum, 1) without *)
+(*        the guard; refuted by NormalisedByKind only on metric columns    *)
+(*        whose maximum lies strictly between 0 and 1 - hence the          *)
+(*        fractional columns (scale, see PoseScale)                        *)
 (* The spec is the oracle: every "rewarded" state is one implementation    *)
 (* test (spec -> impl replay).                                             *)
 (***************************************************************************)
@@ -50,10 +55,11 @@ EXTENDS Integers, Sequences, FiniteSets, FiniteSetsExt, TLC, Json, Rationals
 CONSTANTS NT, NS, MetricVals, Kinds, Deltas,   \* Deltas: set of <<num, den>>
           FullOrders,                           \* orders that get the whole lattice of cubes
           Rotations,                            \* subset of 0..3: which lead values the kinds get in DistinctK
-          Deviation                             \* "none" | name of a wrong column lookup (see header)
+          ScaledOrders,                         \* orders that get the fractional (scaled) metric columns
+          Deviation                             \* "none" | name of a wrong lookup / normalisation (see header)
 
-VARIABLES pc, kind, delta, order, kcube, cube, norm, reward
-vars == <<pc, kind, delta, order, kcube, cube, norm, reward>>
+VARIABLES pc, kind, delta, order, scale, kcube, cube, norm, reward
+vars == <<pc, kind, delta, order, scale, kcube, cube, norm, reward>>
 
 T == 1..NT
 S == 1..NS
@@ -65,18 +71,35 @@ KindIdx(kd) == CASE kd = "stab" -> 0 [] kd = "info" -> 1 [] kd = "sens" -> 2 [] 
 
 ASSUME Cardinality(MetricVals) >= 4 /\ Rotations \subseteq 0..3 /\ NT >= 1 /\ NS >= 1
 
-Init == /\ pc = "start" /\ kind = "none" /\ delta = <<1, 1>> /\ order = <<>>
+Init == /\ pc = "start" /\ kind = "none" /\ delta = <<1, 1>> /\ order = <<>> /\ scale = <<>>
         /\ kcube = <<>> /\ cube = <<>> /\ norm = <<>> /\ reward = <<>>
 
 \* the summation reward has no delta: one value only
 PoseKind == /\ pc = "start"
             /\ \E k \in Kinds : \E d \in (IF k = "sum" THEN {CHOOSE x \in Deltas : TRUE} ELSE Deltas) :
                   kind' = k /\ delta' = d
-            /\ pc' = "kind" /\ UNCHANGED <<order, kcube, cube, norm, reward>>
+            /\ pc' = "kind" /\ UNCHANGED <<order, scale, kcube, cube, norm, reward>>
 \* RewardConfig.metrics: the metric kinds in any order
 PoseOrder == /\ pc = "kind"
              /\ \E o \in Orders(kind) : order' = o
-             /\ pc' = "order" /\ UNCHANGED <<kind, delta, kcube, cube, norm, reward>>
+             /\ pc' = "order" /\ UNCHANGED <<kind, delta, scale, kcube, cube, norm, reward>>
+
+\* ---- fractional metric values ----
+\* The metric of kind kd has the value kcube[t][s][kd] / scale[kd]: one positive integer denominator
+\* per kind, so a column is a set of rationals with a common denominator and every comparison stays
+\* on integers.  With lattice {-1, 0, 2, 3}: scale 1 -> column maxima 2, 3 (> 1), 0, -1;
+\* scale 2 -> maxima 1, 3/2, 0, -1/2; scale 3 -> 2/3, 1, 0, -1/3; scale 4 -> 1/2, 3/4, 0, -1/4:
+\* maxima strictly between 0 and 1, exactly 1, above 1, zero and negative, mixed over the kinds.
+\* Scale vectors: every vector over {1, 4}, the uniform 2 and 3, the four rotations of 1, 2, 4, 3.
+\* Only the orders in ScaledOrders get them (the others: all ones), with the kind-distinct cubes.
+DenSeq == <<1, 2, 4, 3>>
+Ones == [kd \in MKinds(kind) |-> 1]
+ScaleVecs == [MKinds(kind) -> {1, 4}]
+               \cup {[kd \in MKinds(kind) |-> d] : d \in {2, 3}}
+               \cup {[kd \in MKinds(kind) |-> DenSeq[((KindIdx(kd) + j) % 4) + 1]] : j \in 0..3}
+PoseScale == /\ pc = "order"
+             /\ \E v \in (IF order \in ScaledOrders THEN ScaleVecs ELSE {Ones}) : scale' = v
+             /\ pc' = "scale" /\ UNCHANGED <<kind, delta, order, kcube, cube, norm, reward>>
 
 \* ---- cube families (posed in two stages so that TLC's workers share the enumeration) ----
 \* stage 1: the values of the pair (1,1), one per metric kind.  Whole lattice for the orders in
@@ -84,11 +107,11 @@ PoseOrder == /\ pc = "kind"
 ValAt(i) == CHOOSE v \in MetricVals : Cardinality({w \in MetricVals : w < v}) = i
 LeadVal(kd, r) == ValAt((KindIdx(kd) + r) % 4)
 DistinctLead(l) == \E r \in Rotations : \A kd \in DOMAIN l : l[kd] = LeadVal(kd, r)
-PoseLead == /\ pc = "order"
+PoseLead == /\ pc = "scale"
             /\ \E l \in [MKinds(kind) -> MetricVals] :
-                  /\ order \in FullOrders \/ DistinctLead(l)
+                  /\ (order \in FullOrders /\ scale = Ones) \/ DistinctLead(l)
                   /\ kcube' = l
-            /\ pc' = "lead" /\ UNCHANGED <<kind, delta, order, cube, norm, reward>>
+            /\ pc' = "lead" /\ UNCHANGED <<kind, delta, order, scale, cube, norm, reward>>
 \* stage 2: all other pairs take any lattice value; the matrix is assembled as
 \* Reward.calculateMetrics does: array([metric.calculate(..) for metric in self.metrics]) -
 \* column c is the metric listed c-th
@@ -99,14 +122,24 @@ PoseCube == /\ pc = "lead"
                               IF <<t, s>> = <<1, 1>> THEN kcube[kd] ELSE g[kd][<<t, s>>]]]]
                  IN /\ kcube' = kc
                     /\ cube' = [t \in T |-> [s \in S |-> [c \in 1..NMetrics(kind) |-> kc[t][s][order[c]]]]]
-            /\ pc' = "posed" /\ UNCHANGED <<kind, delta, order, norm, reward>>
+            /\ pc' = "posed" /\ UNCHANGED <<kind, delta, order, scale, norm, reward>>
 
 \* Reward.normalizeMetrics: for met in range(len(self.metrics)): column-wise
-MaxOf(m) == Max({cube[t][s][m] : t \in T, s \in S})
+\*     if metric_matrix[..., met].max() > 0.0: metric_matrix[..., met] /= metric_matrix[..., met].max()
+\* Deviation "DivisorFlooredAtOne": metric /= max(metric.max(), 1) without the guard - identical for
+\* maxima >= 1, = 0 and < 0, different exactly for maxima strictly between 0 and 1
+One == <<1, 1>>
+Den(m) == scale[order[m]]                                  \* denominator of column m
+Val(t, s, m) == Norm(cube[t][s][m], Den(m))                \* value of the matrix entry
+MaxOf(m) == Max({cube[t][s][m] : t \in T, s \in S})         \* numerator of the column maximum
+MaxVal(m) == Norm(MaxOf(m), Den(m))
+NormEntry(t, s, m) ==
+  IF Deviation = "DivisorFlooredAtOne"
+    THEN IF QLt(One, MaxVal(m)) THEN QDiv(Val(t, s, m), MaxVal(m)) ELSE Val(t, s, m)
+    ELSE IF QLt(Q(0), MaxVal(m)) THEN QDiv(Val(t, s, m), MaxVal(m)) ELSE Val(t, s, m)
 Normalize == /\ pc = "posed"
-             /\ norm' = [t \in T |-> [s \in S |-> [m \in 1..NMetrics(kind) |->
-                          IF MaxOf(m) > 0 THEN Norm(cube[t][s][m], MaxOf(m)) ELSE Q(cube[t][s][m])]]]
-             /\ pc' = "normalized" /\ UNCHANGED <<kind, delta, order, kcube, cube, reward>>
+             /\ norm' = [t \in T |-> [s \in S |-> [m \in 1..NMetrics(kind) |-> NormEntry(t, s, m)]]]
+             /\ pc' = "normalized" /\ UNCHANGED <<kind, delta, order, scale, kcube, cube, reward>>
 
 \* Reward.__init__: _metric_type_indices[metric.metric_type] = position in the metric list
 PosIn(seq, x) == CHOOSE i \in DOMAIN seq : seq[i] = x
@@ -116,8 +149,8 @@ ColOf(kd) ==
     [] Deviation = "ColumnsByPositionInSublist" ->
           IF kd = "beh" THEN PosIn(order, kd) ELSE PosIn(SelectSeq(order, NotBeh), kd)
     [] Deviation = "ColumnsInDocumentedOrder" -> PosIn(DocOrder(kind), kd)
+    [] OTHER -> PosIn(order, kd)
 
-One == <<1, 1>>
 Cost(x) == QSub(QMul(delta, QAdd(Q(QSign(x[ColOf("stab")])), x[ColOf("info")])),
                 QMul(QSub(One, delta), x[ColOf("sens")]))
 RECURSIVE SumCols(_, _)
@@ -128,14 +161,17 @@ RewardOf(x) ==
     [] kind = "combined" -> QAdd(Cost(x), x[ColOf("beh")])
 Calculate == /\ pc = "normalized"
              /\ reward' = [t \in T |-> [s \in S |-> RewardOf(norm[t][s])]]
-             /\ pc' = "rewarded" /\ UNCHANGED <<kind, delta, order, kcube, cube, norm>>
+             /\ pc' = "rewarded" /\ UNCHANGED <<kind, delta, order, scale, kcube, cube, norm>>
 
-Next == PoseKind \/ PoseOrder \/ PoseLead \/ PoseCube \/ Normalize \/ Calculate
+Next == PoseKind \/ PoseOrder \/ PoseScale \/ PoseLead \/ PoseCube \/ Normalize \/ Calculate
 Spec == Init /\ [][Next]_vars
 
 \* ---- C07, reward clause, stated on metric KINDS (independent of the listing order) ----
+\* the documented normalisation rule, exactly: a metric is divided by its maximum over all pairs
+\* if and only if that maximum is positive (so a positive maximum becomes exactly one, whatever
+\* its size); otherwise it is left as it is.  (x/d) / (max/d) = x/max: the scale cancels.
 KMax(kd) == Max({kcube[t][s][kd] : t \in T, s \in S})
-KNorm(t, s, kd) == IF KMax(kd) > 0 THEN Norm(kcube[t][s][kd], KMax(kd)) ELSE Q(kcube[t][s][kd])
+KNorm(t, s, kd) == IF KMax(kd) > 0 THEN Norm(kcube[t][s][kd], KMax(kd)) ELSE Norm(kcube[t][s][kd], scale[kd])
 DocCost(t, s) == QSub(QMul(delta, QAdd(Q(QSign(KNorm(t, s, "stab"))), KNorm(t, s, "info"))),
                       QMul(QSub(One, delta), KNorm(t, s, "sens")))
 Documented(t, s) ==
@@ -148,10 +184,18 @@ RewardIsDocumentedCombination ==
 NormalisedByKind ==
   pc = "normalized" =>
      \A t \in T, s \in S, c \in 1..NMetrics(kind) : norm[t][s][c] = KNorm(t, s, order[c])
-\* the kind-distinct family really has pairwise different columns
-Column(c) == [t \in T |-> [s \in S |-> cube[t][s][c]]]
+\* every metric with a positive maximum has maximum exactly one after normalisation, the others are unchanged
+PositiveMaxBecomesOne ==
+  pc = "normalized" =>
+     \A m \in 1..NMetrics(kind) :
+        IF MaxOf(m) > 0
+          THEN /\ \E t \in T, s \in S : norm[t][s][m] = One
+               /\ \A t \in T, s \in S : QLe(norm[t][s][m], One)
+          ELSE \A t \in T, s \in S : norm[t][s][m] = Val(t, s, m)
+\* the kind-distinct family really has pairwise different columns (as values)
+Column(c) == [t \in T |-> [s \in S |-> Val(t, s, c)]]
 DistinctColumns ==
-  pc = "posed" /\ order \notin FullOrders =>
+  pc = "posed" /\ (order \notin FullOrders \/ scale # Ones) =>
      \A c1, c2 \in 1..NMetrics(kind) : c1 # c2 => Column(c1) # Column(c2)
 
 \* (norm does not change after Normalize: the invariants on it are evaluated once, in "normalized")
@@ -169,9 +213,11 @@ NormalisedOrderKept ==
      \A m \in 1..NMetrics(kind), t1 \in T, t2 \in T, s1 \in S, s2 \in S :
         cube[t1][s1][m] <= cube[t2][s2][m] => QLe(norm[t1][s1][m], norm[t2][s2][m])
 
-\* expected values handed to the replay driver (cube/norm by COLUMN, order = kind of each column)
+\* expected values handed to the replay driver (cube/norm by COLUMN, order = kind of each column;
+\* the matrix entry is cube[t][s][c] / den[c])
 Emit == pc = "rewarded" =>
           PrintT("REWARD " \o ToJson([kind |-> kind, delta |-> delta, order |-> order, cube |-> cube,
+                                      den |-> [c \in 1..NMetrics(kind) |-> Den(c)],
                                       norm |-> norm, reward |-> reward]))
 
 \* ---- constant values for the cfg files (cfg syntax has no negative numbers / tuples) ----
